@@ -433,6 +433,55 @@ def check_model(run, scen, model, D, pre_params, step, tag):
                 return
 
 
+def check_refit_equals_fresh_fit(run, scen, A, D, hint, step, tag, container):
+    """O6: a re-fit of an already fitted model gives what a first fit of a fresh model built from
+    the same description gives on the same data (intervals exactly; estimates of conditional
+    dimensions exactly - their templates are never fitted; unconditional dimensions, whose
+    estimators start from the current parameters, within estimator tolerance)."""
+    C = build_model(scen, hint)
+    try:
+        C.fit(_as_container(D, container), copy.deepcopy(fit_desc_of(scen)))
+    except Exception:  # noqa: BLE001
+        run.count("o6_fresh_fit_failed")
+        return
+    run.count("o6_comparisons")
+    for i, d in enumerate(scen["dims"]):
+        fam, fixed, free = TEMPLATES[d["template"]]
+        da, dc = A.distributions[i], C.distributions[i]
+        if d["cond_on"] is None:
+            # Unconditional dimensions start their estimator from the current parameters (a warm start),
+            # so a re-fit may legitimately differ from a fresh fit within estimator tolerance - and after
+            # a *failed* fit on rejected data it can differ grossly (seen: Weibull alpha = 5e-14 instead
+            # of 2.85).  The property's statement covers the per-interval estimates only, so this is
+            # counted, not judged.
+            dist = _law_dist(fam, {k: float(v) for k, v in da.parameters.items()}, {k: float(v) for k, v in dc.parameters.items()})
+            if dist == dist and dist > 1e-3:
+                run.count("probe:unconditional-refit-differs-from-fresh-fit")
+            continue
+        sk = scen["slicers"][d["cond_on"]]["kind"]
+        ba, bc = list(da.conditioning_interval_boundaries), list(dc.conditioning_interval_boundaries)
+        if len(ba) != len(bc) or not np.allclose(np.asarray(ba, dtype=float), np.asarray(bc, dtype=float), rtol=1e-12, atol=0):
+            run.violate("O6-refit-equals-fresh-fit", f"intervals/{sk}", {"dim": i, "n_intervals_refitted": len(ba), "n_intervals_fresh": len(bc), "first_boundaries_refitted": [list(map(float, b)) for b in ba[:2]], "first_boundaries_fresh": [list(map(float, b)) for b in bc[:2]], "step": step, "tag": tag})
+            return
+        for k in range(len(ba)):
+            if Counter(np.asarray(da.data_intervals[k], dtype=float).tolist()) != Counter(np.asarray(dc.data_intervals[k], dtype=float).tolist()):
+                run.violate("O6-refit-equals-fresh-fit", f"interval-population/{sk}", {"dim": i, "interval": k, "size_refitted": len(da.data_intervals[k]), "size_fresh": len(dc.data_intervals[k]), "step": step, "tag": tag})
+                return
+            if not _params_equal(da.parameters_per_interval[k], dc.parameters_per_interval[k]):
+                run.violate("O6-refit-equals-fresh-fit", f"interval-estimate/{d['template']}", {"dim": i, "interval": k, "refitted": dict(da.parameters_per_interval[k]), "fresh": dict(dc.parameters_per_interval[k]), "step": step, "tag": tag})
+                return
+        cv = np.asarray(da.conditioning_values, dtype=float)
+        for p in d["deps"]:
+            with np.errstate(all="ignore"):
+                a = np.asarray(da.conditional_parameters[p](cv), dtype=float)
+                c = np.asarray(dc.conditional_parameters[p](cv), dtype=float)
+            if np.all(np.isfinite(a)) and np.all(np.isfinite(c)):
+                sc = float(np.max(np.abs(a))) or 1.0
+                if float(np.max(np.abs(a - c))) / sc > 1e-3:
+                    run.violate("O6-refit-equals-fresh-fit", f"dependence/{d['deps'][p]['shape']}", {"dim": i, "param": p, "refitted": [float(v) for v in da.conditional_parameters[p].parameters.values()], "fresh": [float(v) for v in dc.conditional_parameters[p].parameters.values()], "step": step, "tag": tag})
+                    return
+
+
 def check_twins(run, scen, A, B, step):
     """O4: same rows in another order -> same model."""
     for i, d in enumerate(scen["dims"]):
@@ -606,6 +655,10 @@ def execute(prop, scen):
             check_model(run, scen, A, D, pre, si, tag)
             if run.violations:
                 return run
+            if si > 0:
+                check_refit_equals_fresh_fit(run, scen, A, D, hint, si, tag, st.get("container", "ndarray"))
+                if run.violations:
+                    return run
             if st["twin_perm"] is not None:
                 run.count("probe:twin-permuted-step")
                 check_twins(run, scen, A, B, si)
